@@ -67,6 +67,11 @@ POOL = [
     'fn k() -> i32\n{\n\tvar p: Pixel = Pixel { x: 1 };\n\treturn: p.x + f()\n}\n\n', 'fn main() -> i32\n{\n\treturn: f()\n}\n\n',
     # duplicates (rejected, in every order)
     'const A: i32 = 5;\n\n', 'fn f() -> i32\n{\n\treturn: 2\n}\n\n', 'struct Pixel\n{\n\ty: i32,\n}\n\n',
+    # 15..19: declarations without a body, and declarations whose parameters, members and locals share names with them
+    'extern fn ext(x: i32, n: i32) -> i32;\n\n', 'extern fn ext2(p: &Pixel, x: u8);\n\n',
+    'fn px(x: i32, n: i32) -> i32\n{\n\tvar p: i32 = x + n;\n\treturn: p\n}\n\n',
+    'fn loc() -> i32\n{\n\tvar x: i32 = 1;\n\tvar n: i32 = 2;\n\treturn: x + n\n}\n\n',
+    'fn undef() -> i32\n{\n\treturn: x\n}\n\n',
 ]
 
 
@@ -76,7 +81,7 @@ def invariance_search(deadline, rng, modules=40, orders=8):
     or are duplicated are all included)"""
     for _ in range(modules):
         # declarations that can interact share a theme (a name, a dependency); one or two themes per module
-        themes = [[2, 4, 5, 8, 9, 10, 14], [0, 1, 7, 11, 12, 13], [3, 6, 0, 7], [4, 5, 8, 10, 7, 0, 1]]
+        themes = [[2, 4, 5, 8, 9, 10, 14], [0, 1, 7, 11, 12, 13], [3, 6, 0, 7], [4, 5, 8, 10, 7, 0, 1], [15, 16, 17, 18, 19, 4], [15, 17, 18, 19, 0]]
         pool = sorted(set(i for t in rng.sample(themes, rng.randint(1, 2)) for i in t))
         decls = [POOL[i] for i in rng.sample(pool, min(len(pool), rng.randint(2, 6)))]
         perms = list(itertools.permutations(decls))
